@@ -377,6 +377,77 @@ def r15_6(ctx, rc):
                 sg.describe_path(sg.witness(seen, hit[0])), key=key)
         else:
             rc.ok({'reader_requires': what}, key=key)
+    # the members of the cache file are read by subscript: a file that lacks
+    # one is refused (KeyError), it is not given a default - ``.get`` would
+    # turn a missing version into None, which may well be the current one
+    n = 0
+    for f0 in {x.func for x in sg.nodes if x.func is not None}:
+        for call in ctx.prog.calls_in(f0):
+            f = call.func
+            if isinstance(f, ast.Attribute) and f.attr in (
+                    'get', 'setdefault', 'pop') and call.args and \
+                    isinstance(call.args[0], ast.Constant) and isinstance(
+                        call.args[0].value, str) and \
+                    call.args[0].value in _top_keys(ctx):
+                # harmless when the default can never be the value that is
+                # asked for: ``j.get('software') != 'file_builder'``
+                par = ctx.prog.parent(call)
+                other = None
+                if isinstance(par, ast.Compare) and len(par.ops) == 1:
+                    other = par.comparators[0] if par.left is call else \
+                        par.left
+                elif isinstance(par, ast.Call) and len(par.args) == 2 and \
+                        call in par.args:
+                    other = par.args[1] if par.args[0] is call else \
+                        par.args[0]
+                cv = ctx.prog.const_value(other, f0) if other is not None \
+                    else None
+                dflt = call.args[1] if len(call.args) > 1 else None
+                if f.attr == 'get' and cv is not None and \
+                        cv.value is not None and (
+                            dflt is None or (isinstance(dflt, ast.Constant)
+                                             and dflt.value != cv.value)):
+                    continue
+                n += 1
+                rc.violation(
+                    'reader-default | %s | %s' % (f0.qualname,
+                                                  call.args[0].value),
+                    '%s reads the cache file\'s member %r with .%s(): a file '
+                    'without that member is accepted with a default instead '
+                    'of being refused' % (f0.qualname, call.args[0].value,
+                                          f.attr),
+                    ctx.prog.loc(f0, call),
+                    key='member %s read by subscript' % call.args[0].value)
+    if n == 0:
+        rc.ok({'members_read_by': 'subscript'},
+              key='cache-file members are read by subscript')
+
+
+def _top_keys(ctx):
+    """Top-level keys the writer emits (string keys of the dict display it
+    dumps)."""
+    if 'top_keys' in ctx.memo:
+        return ctx.memo['top_keys']
+    W = ctx.E.func(ctx.R.cache + '.write')
+    keys = set()
+    for n in ast.walk(W.node):
+        if isinstance(n, ast.Dict):
+            ks = {k.value for k in n.keys if isinstance(k, ast.Constant)
+                  and isinstance(k.value, str)}
+            if len(ks) > len(keys):
+                keys = ks
+    if len(keys) < 4:
+        # the writer builds the object another way: the keys the reader
+        # subscripts the parsed object with
+        Rd = ctx.E.func(ctx.R.cache + '.read_immutable')
+        keys = {n.slice.value for n in ast.walk(Rd.node)
+                if isinstance(n, ast.Subscript) and isinstance(
+                    n.slice, ast.Constant) and isinstance(
+                    n.slice.value, str)}
+    if len(keys) < 4:
+        raise AnalysisError('top-level keys of the cache file not found')
+    ctx.memo['top_keys'] = keys
+    return keys
 
 
 def _always_raises(stmts):
@@ -513,6 +584,14 @@ def r15_8(ctx, rc):
         raise AnalysisError('only %d argument type tests found' % n)
 
 
+def r15_9(ctx, rc):
+    """Every call decides on what the files say now: no memoised function
+    reads ambient state (the memo census of R7.1) - a cache file validated
+    once would be accepted after it was damaged."""
+    from .c07 import memoised_ambient_census
+    memoised_ambient_census(ctx, rc)
+
+
 RULES = [
     ('R15.1', 'no mutating effect can precede a refusal point', r15_1),
     ('R15.2', 'refusal callees are read-only', r15_2),
@@ -522,4 +601,5 @@ RULES = [
     ('R15.6', 'the reader accepts only files it can vouch for', r15_6),
     ('R15.7', 'a refusal of the cache reader is never swallowed', r15_7),
     ('R15.8', 'argument type tests are not bypassed', r15_8),
+    ('R15.9', 'no refusal decision is served from a memo', r15_9),
 ]
